@@ -6,7 +6,7 @@ import os, sys, re, json, time, shutil, subprocess, tempfile, signal
 
 VERIF = os.path.dirname(os.path.dirname(os.path.abspath(__file__)))
 SPEC = os.path.join(VERIF, 'spec')
-EVID = os.path.join(VERIF, 'evidence')
+EVID = os.environ.get('VERIF_EVIDENCE_DIR') or os.path.join(VERIF, 'evidence')   # seeded-change runs write elsewhere
 REPLAYS = os.path.join(EVID, 'replays')
 JAR = '/opt/veriftools/tla/tla2tools.jar:/opt/veriftools/tla/CommunityModules-deps.jar'
 
